@@ -876,12 +876,15 @@ class ktensor:
                 endpt = breakpt + 1
             else:
                 warnings.warn(f"Trouble fixing signs for mode {r}")
-                if (breakpt < RB) and (
+                # breakpt is the 0-based position of the last negative score, i.e.
+                # breakpt + 1 scores are negative (an odd number): flip one more or
+                # one fewer factor so that the number of flips is even
+                if (breakpt + 1 < N) and (
                     -sort_sgn_score[breakpt] > sort_sgn_score[breakpt + 1]
                 ):
-                    endpt = breakpt + 1
+                    endpt = breakpt + 2
                 else:
-                    endpt = breakpt - 1
+                    endpt = breakpt
 
             # Flip the signs
             for i in range(endpt):
